@@ -446,7 +446,7 @@ fn multiline(r: &mut Rng) -> String {
     s
 }
 
-fn entry(r: &mut Rng) -> LedgerEntry<'static> {
+pub fn entry(r: &mut Rng) -> LedgerEntry<'static> {
     match r.below(16) {
         0 => LedgerEntry::Comment(TopLevelComment(Cow::Owned(multiline(r)))),
         1 => LedgerEntry::ApplyTag(ApplyTag {
@@ -580,7 +580,7 @@ fn shaped_entry(r: &mut Rng, shape: u64, delta: i64, balance_only: bool) -> Ledg
 // observation and case writing
 // ------------------------------------------------------------------------------------------
 
-fn display(e: &LedgerEntry) -> Option<String> {
+pub fn display(e: &LedgerEntry) -> Option<String> {
     std::panic::catch_unwind(AssertUnwindSafe(|| format!("{}", DisplayContext::default().as_display(e)))).ok()
 }
 
@@ -667,7 +667,7 @@ impl Run<'_> {
     }
 }
 
-fn ledger_files(dir: &str, out: &mut Vec<std::path::PathBuf>) {
+pub fn ledger_files(dir: &str, out: &mut Vec<std::path::PathBuf>) {
     if let Ok(rd) = std::fs::read_dir(dir) {
         let mut ps: Vec<_> = rd.filter_map(|e| e.ok()).map(|e| e.path()).collect();
         ps.sort();
@@ -780,9 +780,8 @@ pub fn run(o: &Opts) {
         run.format_case(t, "hand-written");
     }
     let mut seeds = Vec::new();
-    ledger_files("/repo/core/testdata", &mut seeds);
+    ledger_files("/repo/testdata", &mut seeds);
     ledger_files("/repo/cli/tests/testdata", &mut seeds);
-    ledger_files("/repo/core/benches", &mut seeds);
     for p in &seeds {
         if let Ok(t) = std::fs::read_to_string(p) {
             if t.len() < 20000 && t.ends_with('\n') {
